@@ -1109,6 +1109,43 @@ func vfC18Values(res *vfResult, codecs map[string]*vfCodec) {
 	}
 }
 
+// vfC18OddVectors: a vector of two-byte elements whose declared length is odd cannot be decoded within its bounds:
+// the last "element" would take a byte from whatever follows. Each decoder gets a well-formed encoding of its
+// container in which exactly that one length is odd; it has to refuse it.
+func vfC18OddVectors(res *vfResult, codecs map[string]*vfCodec) {
+	type probe struct {
+		codec string
+		in    []byte
+		what  string
+	}
+	probes := []probe{
+		{"MessageCertificateRequest", []byte{1, 64, 0, 3, 4, 3, 4, 0, 0}, "supported_signature_algorithms of 3 bytes followed by an empty certificate_authorities"},
+		{"MessageCertificateRequest", []byte{1, 64, 0, 5, 4, 3, 5, 3, 6, 0, 2, 0, 0}, "supported_signature_algorithms of 5 bytes followed by one empty distinguished name"},
+		{"ext/SupportedGroups", []byte{0, 3, 0, 29, 0}, "named_group_list of 3 bytes"},
+		{"ext/SignatureAlgorithms", []byte{0, 3, 4, 3, 4}, "supported_signature_algorithms of 3 bytes"},
+		{"ext/CertificateSignatureAlgorithms", []byte{0, 3, 4, 3, 4}, "signature_algorithms_cert of 3 bytes"},
+		{"ext/SRTPOffer", []byte{0, 3, 0, 1, 0, 0}, "SRTPProtectionProfiles of 3 bytes"},
+		{"ext/13/OfferedVersions", []byte{3, 0xfe, 0xfc, 0xfe}, "versions of 3 bytes"},
+	}
+	for _, pr := range probes {
+		c, ok := codecs[pr.codec]
+		if !ok {
+			res.Count("odd_vector_codec_unknown", 1)
+			res.Seen("odd_vector_codec_unknown_names", pr.codec)
+
+			continue
+		}
+		res.Eval(1)
+		res.Count("odd_vector_probes", 1)
+		res.NonTrivial("odd-vector/" + pr.codec + "/" + vfShortHash(string(pr.in)))
+		if v, err := c.Dec(pr.in); err == nil {
+			res.Violate("C18:"+pr.codec+":odd-length-vector-accepted",
+				fmt.Sprintf("%s: %s was accepted (decoded %+v): the last element reads a byte beyond the declared length (input %s)", pr.codec, pr.what, v, vfHex(pr.in)),
+				map[string]any{"codec": pr.codec, "input": vfHex(pr.in), "origin": "odd-vector"})
+		}
+	}
+}
+
 func TestVF_C18(t *testing.T) {
 	vfGetPKI()
 	res := vfNewResult("C18", "every codec (record headers legacy/CID/unified, records, inner plaintext, handshake header and every "+
@@ -1235,6 +1272,7 @@ func TestVF_C18(t *testing.T) {
 	vfC18Unpack13Generated(res)
 	vfC18HookedHello(t, res)
 	vfC18Values(res, codecs)
+	vfC18OddVectors(res, codecs)
 	if res.Get("codecs_without_accepted_input") > 6 {
 		res.Inconc(fmt.Sprintf("%d codecs never accepted any input", res.Get("codecs_without_accepted_input")))
 	}
